@@ -2,13 +2,22 @@ package goat
 
 import (
 	"context"
+	"errors"
 	"sync"
+
+	"github.com/avos-io/goat/internal"
 )
 
 type demuxConn struct {
 	r chan *Rpc
 	w chan *Rpc
+
+	// done is closed by Cancel. The data channels are never closed: the run
+	// loop and writers may be parked sending on them.
+	done chan struct{}
 }
+
+var errDemuxConnCancelled = errors.New("demux: connection cancelled")
 
 // Wraps a Goat Server, demultiplexing IO.
 type Demux struct {
@@ -66,7 +75,13 @@ func (gsd *Demux) Run() {
 		}
 		gsd.conns.Unlock()
 
-		conn.r <- rpc
+		select {
+		case conn.r <- rpc:
+		case <-conn.done:
+			// cancelled while we were waiting for its reader: drop
+		case <-gsd.ctx.Done():
+			return
+		}
 	}
 }
 
@@ -75,8 +90,7 @@ func (gsd *Demux) Cancel(id string) {
 	defer gsd.conns.Unlock()
 
 	if conn, ok := gsd.conns.value[id]; ok {
-		close(conn.r)
-		close(conn.w)
+		close(conn.done)
 	}
 
 	delete(gsd.conns.value, id)
@@ -84,8 +98,9 @@ func (gsd *Demux) Cancel(id string) {
 
 func (gsd *Demux) newConnLocked(id string) *demuxConn {
 	c := &demuxConn{
-		r: make(chan *Rpc),
-		w: make(chan *Rpc),
+		r:    make(chan *Rpc),
+		w:    make(chan *Rpc),
+		done: make(chan struct{}),
 	}
 
 	go func() {
@@ -93,10 +108,9 @@ func (gsd *Demux) newConnLocked(id string) *demuxConn {
 			select {
 			case <-gsd.ctx.Done():
 				return
-			case rpc, ok := <-c.w:
-				if !ok {
-					return
-				}
+			case <-c.done:
+				return
+			case rpc := <-c.w:
 				err := gsd.rw.Write(gsd.ctx, rpc)
 				if err != nil {
 					return
@@ -107,7 +121,33 @@ func (gsd *Demux) newConnLocked(id string) *demuxConn {
 
 	gsd.conns.value[id] = c
 
-	go gsd.onNewConnection(NewGoatOverChannel(c.r, c.w))
+	go gsd.onNewConnection(c.readWriter())
 
 	return c
+}
+
+// readWriter is the logical connection handed to onNewConnection: like
+// NewGoatOverChannel, but reads and writes fail once the key is cancelled.
+func (c *demuxConn) readWriter() RpcReadWriter {
+	read := func(ctx context.Context) (*Rpc, error) {
+		select {
+		case <-ctx.Done():
+			return nil, ctx.Err()
+		case <-c.done:
+			return nil, errDemuxConnCancelled
+		case rpc := <-c.r:
+			return rpc, nil
+		}
+	}
+	write := func(ctx context.Context, rpc *Rpc) error {
+		select {
+		case <-ctx.Done():
+			return ctx.Err()
+		case <-c.done:
+			return errDemuxConnCancelled
+		case c.w <- rpc:
+			return nil
+		}
+	}
+	return internal.NewFnReadWriter(read, write)
 }
